@@ -197,6 +197,10 @@ func RunForStmt(ctx *Task, stmt *ast.ForStmt) (any, ast.DType, *errchain.PlError
 	}
 
 	for {
+		// exit() in the init or loop clause, or a fired signal, ends the loop
+		if ctx.ProcExit() {
+			break
+		}
 		if stmt.Cond != nil {
 			val, dtype, err := RunStmt(ctx, stmt.Cond)
 			if err != nil {
